@@ -40,7 +40,7 @@ func c09Record(c *vCase, n *vNet) (peer.ID, crypto.PrivKey, []byte) {
 }
 
 func TestVerifC09Thresholds(t *testing.T) {
-	vRun(t, "C09.thresholds", vCount(400, 10000), func(c *vCase) {
+	vRun(t, "C09.thresholds", vCount(400, 30000), func(c *vCase) {
 		c.Bubble(func() {
 			gossipTh := []float64{0, -1, -5}[c.Intn(3)]
 			publishTh := gossipTh - []float64{0, 1, 5}[c.Intn(3)]
@@ -520,7 +520,7 @@ func TestVerifC09Thresholds(t *testing.T) {
 
 // Gater: validation overload must only ever suppress payload, never control.
 func TestVerifC09Gater(t *testing.T) {
-	vRun(t, "C09.gater", vCount(150, 3000), func(c *vCase) {
+	vRun(t, "C09.gater", vCount(150, 10000), func(c *vCase) {
 		c.Bubble(func() {
 			params := vFastParams()
 			params.D, params.Dlo, params.Dhi, params.Dscore, params.Dout = 8, 6, 16, 4, 2
